@@ -209,27 +209,35 @@ class CondWrap:
 
 
 def make_cond(kind, pre, A, Dy, Dx, via="Sigma"):
+    """construct the conditional.  Variants are selected by the presence of extra inputs:
+       <pre>Lonly  -> built from the precision only (Lambda=, no Sigma)
+       <pre>S2     -> update_Sigma(<pre>S2) is called after construction (the object then denotes S2)"""
     factor, measure, pdf, conditional = gt()
+    cov = {"Lambda": A[pre + "Lonly"]} if (pre + "Lonly") in A else {"Sigma": A[pre + "S"]}
     if kind == "full":
-        return CondWrap(conditional.ConditionalGaussianPDF(M=A[pre + "M"], b=A[pre + "b"], Sigma=A[pre + "S"]), {})
-    if kind == "diag":
-        return CondWrap(conditional.ConditionalGaussianDiagPDF(M=A[pre + "M"], b=A[pre + "b"], Sigma=A[pre + "S"]), {})
-    if kind == "identity":
-        return CondWrap(conditional.ConditionalIdentityGaussianPDF(Sigma=A[pre + "S"]), {})
-    if kind == "identitydiag":
-        return CondWrap(conditional.ConditionalIdentityDiagGaussianPDF(Sigma=A[pre + "S"]), {})
-    if kind == "nncontrol":
+        w = CondWrap(conditional.ConditionalGaussianPDF(M=A[pre + "M"], b=A[pre + "b"], **cov), {})
+    elif kind == "diag":
+        w = CondWrap(conditional.ConditionalGaussianDiagPDF(M=A[pre + "M"], b=A[pre + "b"], **cov), {})
+    elif kind == "identity":
+        w = CondWrap(conditional.ConditionalIdentityGaussianPDF(**cov), {})
+    elif kind == "identitydiag":
+        w = CondWrap(conditional.ConditionalIdentityDiagGaussianPDF(**cov), {})
+    elif kind == "nncontrol":
         P, q = A[pre + "P"], A[pre + "q"]
         obj = conditional.NNControlGaussianConditional(Sigma=A[pre + "S"], num_cond_dim=Dx, num_control_dim=P.shape[0],
                                                        control_func=lambda u: u @ P + q[None])
-        return CondWrap(obj, {"u": A[pre + "u"]})
-    raise ValueError(kind)
+        w = CondWrap(obj, {"u": A[pre + "u"]})
+    else:
+        raise ValueError(kind)
+    if (pre + "S2") in A:
+        w.obj.update_Sigma(A[pre + "S2"])
+    return w
 
 
 def cond_spec_params(ops, kind, pre, I, R, Dy, Dx):
     """(M[R,Dy,Dx], b[R,Dy], Sigma[R,Dy,Dy]) that the conditional denotes, by definition"""
     from .. import spec
-    S = I[pre + "S"]
+    S = I[pre + "S2"] if (pre + "S2") in I else I[pre + "S"]
     if kind in ("full", "diag"):
         return I[pre + "M"], I[pre + "b"], S
     if kind in ("identity", "identitydiag"):
